@@ -21,7 +21,7 @@ from . import _sel
 ID = 'C19'
 LEVEL = 'exploration'
 
-LEAVES = [('t', 'ab'), ('t', 'cd'), ('t', ' '), ('t', '\xa0'), ('t', 'q"\\'), ('t', '"a\''), ('c', 'ab'), ('cd', 'ab'), ('pi', 'ab'), ('decl', 'ab'), ('dt', 'ab')]
+LEAVES = [('t', 'ab'), ('t', 'cd'), ('t', ' '), ('t', '\xa0'), ('t', '\f\t\r\n'), ('t', '\x0b'), ('t', '\u2003'), ('t', 'q"\\'), ('t', '"a\''), ('c', 'ab'), ('cd', 'ab'), ('pi', 'ab'), ('decl', 'ab'), ('dt', 'ab')]
 SUB = [('t', 'ab'), ('t', 'cd'), ('c', 'cd'), ('cd', 'cd'), ('e', 'i', (), ())]
 SEARCH = ['', 'a', 'ab', 'bc', 'abcd', 'b c', 'cdab', 'q"\\', ' ', 'q"', '"a', "a'", '"', "'", '\\', 'b"c']
 
